@@ -170,6 +170,11 @@ pub struct ArchOpts {
     /// names; both archive sources resolve `..` while indexing)
     #[serde(default)]
     pub dotdot_mask: u16,
+    /// Some(k): one directory also holds an entry that has no id - in the archives a member `backup.tar.x` (two
+    /// dots), on disk a file whose name is not UTF-8. Such entries are not part of the tree: no source lists them,
+    /// and nothing else changes.
+    #[serde(default)]
+    pub junk: Option<u16>,
 }
 
 #[derive(Debug, Clone)]
@@ -178,6 +183,8 @@ pub enum Member {
     File(String, String),
     /// an outdated copy of a file that appears again later
     StaleFile(String, String),
+    /// a member without an id (`<dir>/backup.tar.x`)
+    Junk(String),
 }
 
 /// The archive members in the generated order: which directories get a member of their own,
@@ -217,7 +224,37 @@ pub fn members(m: &Model, o: &ArchOpts) -> Vec<Member> {
             }
         }
     }
+    if let Some(k) = o.junk {
+        let dirs: Vec<&String> = m.dirs.iter().collect();
+        if !dirs.is_empty() {
+            let d = dirs[k as usize % dirs.len()].clone();
+            let pos = (k as usize / 5) % (v.len() + 1);
+            v.insert(pos, Member::Junk(d));
+        }
+    }
     v
+}
+
+/// The junk entry of `o` on disk: a file with a non UTF-8 name in one directory of the tree.
+pub fn write_junk_on_disk(m: &Model, o: &ArchOpts, root: &Path) {
+    use std::os::unix::ffi::OsStrExt;
+    if let Some(k) = o.junk {
+        let dirs: Vec<&String> = m.dirs.iter().collect();
+        if !dirs.is_empty() {
+            let d = dirs[k as usize % dirs.len()];
+            let _ = std::fs::write(root.join(rel_path(d, None)).join(std::ffi::OsStr::from_bytes(b"bad\xFFname.x")), b"junk");
+        }
+    }
+}
+
+fn junk_member_name(d: &str, o: &ArchOpts) -> String {
+    let mut s = if d.is_empty() { String::new() } else { format!("{}/", rel_path(d, None).to_str().unwrap()) };
+    s.push_str("backup.tar.x");
+    if o.dot_prefix {
+        format!("./{s}")
+    } else {
+        s
+    }
 }
 
 fn file_member_name(id: &str, ext: &str, o: &ArchOpts, k: usize) -> String {
@@ -247,6 +284,10 @@ pub fn make_zip(m: &Model, o: &ArchOpts) -> Vec<u8> {
         match mem {
             Member::Dir(d) => {
                 w.add_directory(member_name(d, None, o.dot_prefix, false), zip::write::FileOptions::default()).expect("zip dir");
+            }
+            Member::Junk(d) => {
+                w.start_file(junk_member_name(d, o), zip::write::FileOptions::default().compression_method(zip::CompressionMethod::Stored)).expect("zip file");
+                w.write_all(b"junk").expect("zip write");
             }
             Member::File(id, ext) | Member::StaleFile(id, ext) => {
                 let method = if (o.deflate_mask >> (k % 16)) & 1 == 1 { zip::CompressionMethod::Deflated } else { zip::CompressionMethod::Stored };
@@ -294,6 +335,7 @@ pub fn make_tar(m: &Model, o: &ArchOpts) -> Vec<u8> {
             Member::Dir(d) => (member_name(d, None, o.dot_prefix, true), Vec::new(), true),
             Member::File(id, ext) => (file_member_name(id, ext, o, k), m.files[&(id.clone(), ext.clone())].clone(), false),
             Member::StaleFile(id, ext) => (file_member_name(id, ext, o, k), b"outdated content of an earlier member".to_vec(), false),
+            Member::Junk(d) => (junk_member_name(d, o), b"junk".to_vec(), false),
         };
         // long names go through the builder (GNU long-name members), which refuses `..`: spell those plainly
         let name = if name.len() > 99 && name.contains("zz/../") { name.replacen("zz/../", "", 1) } else { name };
@@ -478,9 +520,9 @@ pub fn arch_opts_strategy() -> impl Strategy<Value = ArchOpts> {
         prop::bool::weighted(0.3),
         prop_oneof![3 => Just(None), 1 => any::<u16>().prop_map(Some)],
         prop_oneof![2 => Just(None), 1 => any::<u16>().prop_map(Some)],
-        prop_oneof![3 => Just(0u16), 1 => any::<u16>()],
+        (prop_oneof![3 => Just(0u16), 1 => any::<u16>()], prop_oneof![3 => Just(None), 1 => any::<u16>().prop_map(Some)]),
     )
-        .prop_map(|(order, dir_members, dot_prefix, deflate_mask, file_backed, stale_duplicate, damage, dotdot_mask)| ArchOpts { order, dir_members, dot_prefix, deflate_mask, file_backed, stale_duplicate, damage, dotdot_mask })
+        .prop_map(|(order, dir_members, dot_prefix, deflate_mask, file_backed, stale_duplicate, damage, (dotdot_mask, junk))| ArchOpts { order, dir_members, dot_prefix, deflate_mask, file_backed, stale_duplicate, damage, dotdot_mask, junk })
 }
 
 pub fn tmpdir(tag: &str) -> PathBuf {
